@@ -38,7 +38,7 @@ PROPS = {
     ),
 }
 
-ENGINES = {'e2e': vlib.e2e_engine}
+ENGINES = {'e2e': vlib.e2e_engine, 'store': vlib.store_engine}
 
 
 def _e2e(profiles, monitors, projection, nq=1500, nt=20000, extra=None):
@@ -69,3 +69,9 @@ PROPS['C10'] = _e2e(['store', 'mix'], ['C10'], ['outcome', 'ncalls'])
 for _b in ('fs', 'fsenc', 'fsreopen'):
     PROPS['C09']['e2e'].append(dict(profile='hit', backend=_b, n_quick=120, n_thorough=3000))
     PROPS['C05']['e2e'].append(dict(profile='store', backend=_b, n_quick=80, n_thorough=2000))
+
+PROPS['C14'] = dict(engines=['store'], store=dict(n_quick=120, n_thorough=6000, nops=30, maxval_quick=4096, maxval_thorough=1 << 20),
+                    rule=('sequences of 30 Set/Get/Delete/Keys/Reopen operations (a quarter through the maintenance HTTP API) over an adversarial key pool '
+                          '(lengths around 36, 191/192, 216 bytes; shared prefixes; all byte values; URL-shaped keys with #; the empty key) on memcache, fscache and '
+                          'encrypted fscache; every case is non-trivial; distinct = distinct operation text'),
+                    assumptions=['the kernel file system behaves as the tree model (openat/rename/unlink/mkdir semantics)'])
